@@ -14,6 +14,7 @@ import (
 func genMore() {
 	genNilGuards()
 	genLoops()
+	genConfig()
 }
 
 type methInfo struct {
